@@ -13,7 +13,12 @@ Producers (one case family each):
 Correspondence: the document tree the model produces against the tree ruamel reads from the text
 the real producer wrote, and the model of the reader against the real reader on that text.
 Direct oracle (property text only): the reader accepts the document, the loaded design equals the
-written one field by field, producing twice gives byte-identical documents, the object is unchanged."""
+written one field by field, producing twice gives byte-identical documents, the object is unchanged.
+
+Entry forms: every produced document goes back through every form the readers take (frame/utils/utils.py
+read_yaml): the text write_yaml() returned, the file write_yaml(name) wrote (by name and as an open stream)
+and the tree; the route read_yaml took (text / file name / stream / tree) is compared with the model
+(Yaml/ProducersText.v), the text itself (': ' present, number of line breaks) with text_of of the model's tree."""
 from __future__ import annotations
 
 import contextlib
@@ -22,7 +27,9 @@ import inspect
 import io
 import json
 import os
+import random
 import tempfile
+import time
 from fractions import Fraction as F
 
 from harness import core, fr
@@ -33,11 +40,21 @@ from harness.props import c01
 from harness.props.netlist_common import val, close, gtree, from_py, to_py
 
 HEADER = """From FrameModel Require Import Num.QcTac Geometry.Rect Cases.Cmp Alloc.Alloc Cases.CmpAlloc Yaml.Tree
-  Yaml.NetlistRead Yaml.NetlistWrite Cases.CmpC0405 Yaml.Netgen Yaml.DieAlloc Yaml.Producers Cases.CmpC19.
+  Yaml.NetlistRead Yaml.NetlistWrite Cases.CmpC0405 Yaml.Netgen Yaml.DieAlloc Yaml.Producers Cases.CmpC19
+  Yaml.ProducersText Cases.CmpC19Free Cases.CmpC19Text.
 Open Scope Qc_scope."""
 
 ASSUMPTIONS = [
-    "the YAML text layer (ruamel) is exercised on every case but not modelled: models produce / consume document trees",
+    "the YAML text layer (ruamel) is exercised on every case but not modelled: models produce / consume document trees; "
+    "in the entry-form theorems it is a Section variable with the contract load (dump t) = t and 'the written text shows "
+    "': ' and line breaks as text_of t says' (block style) - the second part is compared with the real text on every "
+    "document; where only that layout differs the run prints a note, not a violation (the layout is not part of the property)",
+    "entry forms: the route read_yaml took is read off the outcome (a file name can only be accepted by opening the file; a "
+    "text taken for a file name gives an OSError; a stream that fails unread was refused) and off builtins.open; file names "
+    "are plain paths without ': ' and line breaks; the tree form is the tree ruamel loads from the text",
+    "documents are compared by what they say: modules, nets, rectangles, cells and the ratios of a cell in order; the "
+    "attributes of a module, the areas per region and the top-level keys in any order; die regions per class (blockages, "
+    "specialised) in order",
     "inputs are dyadic (k/8 below 2^10) so that binary64 is exact; quotients (centroids, incremental centres, w*alpha, "
     "pin +- 1e-3) are compared within a few roundings; the int/float form of a written number is not compared",
     "the ground regions of a die are derived data (never written): the reloaded die must cover the same ground area; "
@@ -57,6 +74,9 @@ PRODUCER = {"die": "Die.write_yaml", "alloc": "Allocation.write_yaml", "netgen":
 # classes of loss that the string builders are known for (open findings)
 DROPS = {"net-weight", "terminal", "flip", "aspect-ratio", "region-areas", "rect-region"}
 YAML_WORDS = {"null", "Null", "NULL", "true", "True", "TRUE", "false", "False", "FALSE"}
+# valid identifiers that are prefixes of each other, look like YAML 1.1 / 1.2 scalars of another type, or like numbers
+ODD_NAMES = ["M1", "M10", "M1_0", "M_", "y", "n", "yes", "No", "on", "off", "null", "true", "True", "NULL", "x", "e5",
+             "inf", "nan", "_1", "_0x1F", "O0"]
 
 _TMP = {"dir": None}
 
@@ -85,6 +105,177 @@ def doc_tree(doc):
 def doc_text(doc):
     """for the byte-for-byte comparison of two documents"""
     return doc if isinstance(doc, str) else repr(doc)
+
+
+# --------------------------------------------------------------------------
+# the entry forms of the readers (frame/utils/utils.py read_yaml)
+# --------------------------------------------------------------------------
+FORMS = ("text", "file", "stream", "tree")
+_DOCS = {"dir": None, "n": 0}
+_ROUTES = []          # (case, label, [(form expression, observed route)], text abstraction) of the run
+_STREAMS = []         # cases in which read_yaml refused the open stream by its assertion
+
+
+def new_path():
+    """a fresh file name without ': ' and without line break (read_yaml must take it for a file name)"""
+    d = _DOCS["dir"] or tempfile.gettempdir()
+    _DOCS["n"] += 1
+    p = os.path.join(d, f"doc_{_DOCS['n']}.yaml")
+    assert ": " not in p and "\n" not in p
+    return p
+
+
+def text_abs(s):
+    """what read_yaml looks at in a string: contains ': ', number of line breaks"""
+    return [": " in s, s.count("\n")]
+
+
+def gabs(a):
+    return f"(mkText {gbool(a[0])} {core.gz(a[1])})"
+
+
+_LAYOUT = {"on": True}
+
+
+def layout(tree_expr, text):
+    """[text_ok tree text]: the text write_yaml wrote looks (': ', line breaks) as the model's block style says.
+    The layout of the text is not part of the property: a mismatch alone is reported as a note (run())."""
+    return [f"text_ok {tree_expr} {gtext(text)}"] if _LAYOUT["on"] else []
+
+
+def gtext(s):
+    """the abstraction of a text: computed by the model from the text itself when it is short"""
+    if len(s) <= 1500 and all(32 <= ord(c) < 127 or c == "\n" for c in s):
+        return '(abs_of_string "' + s.replace('"', '""') + '"%string)'      # line breaks stay as they are
+    return gabs(text_abs(s))
+
+
+def safe_tree(text):
+    from ruamel.yaml import YAML
+    try:
+        return YAML(typ="safe").load(text), None
+    except Exception as e:
+        return None, f"{type(e).__name__}: {str(e)[:200]}"
+
+
+def feed(reader, text, path, eps=None, forms=FORMS, tree=None):
+    """The written document through every entry form of a reader.  reader(src) -> observation (or raises).
+    Returns form -> {"ok", "obs" | "err", "route"}; route is what read_yaml did with the argument: ParseText /
+    OpenFile, ReadStream / AssertFails (refused unread), UseTree; None when the outcome does not tell."""
+    import builtins
+    tree_py = to_py(tree) if tree is not None else safe_tree(text)[0]      # tree: what ruamel loaded from the text
+    res = {}
+    for form in forms:
+        if form == "tree" and not isinstance(tree_py, (list, dict)):
+            continue
+        reset_eps(eps)
+        opened, fh = [], None
+        orig = builtins.open
+        r = {"ok": False, "err": "OSError: the file could not be opened"}
+        try:
+            if form == "text":
+                src = text
+            elif form == "file":
+                src = path
+            elif form == "stream":
+                src = fh = orig(path)
+            else:
+                src = copy.deepcopy(tree_py)
+
+            def spy(*a, **k):
+                if a and isinstance(src, str) and a[0] == src:
+                    opened.append(1)
+                return orig(*a, **k)
+            builtins.open = spy
+            try:
+                r = {"ok": True, "obs": reader(src)}
+            except Exception as e:
+                r = {"ok": False, "err": f"{type(e).__name__}: {str(e)[:200]}", "oserror": isinstance(e, OSError)}
+        finally:
+            builtins.open = orig
+            # the route is read off the outcome (and off open() when it went through builtins.open): a file
+            # name can only be accepted by opening the file, a text that is taken for a file name gives an
+            # OSError; a stream that fails without having been read was refused before reading
+            if form == "text":
+                r["route"] = "OpenFile" if (opened or r.get("oserror")) else ("ParseText" if r["ok"] else None)
+            elif form == "file":
+                r["route"] = "OpenFile" if (opened or r["ok"] or r.get("oserror")) else None
+            elif form == "stream":
+                try:
+                    touched = fh is not None and fh.tell() != 0
+                except ValueError:          # closed by the reader: it was used
+                    touched = True
+                r["route"] = "ReadStream" if (touched or r["ok"]) else "AssertFails"
+                if fh is not None:
+                    fh.close()
+            else:
+                r["route"] = "UseTree"
+        res[form] = r
+    reset_eps()
+    return res
+
+
+def forms_summary(res):
+    """the other forms against the text form (the observations themselves are kept once)"""
+    base = res["text"]
+    out = {}
+    for f, r in res.items():
+        out[f] = {"ok": r["ok"], "err": r.get("err"), "route": r["route"],
+                  "same": (r["ok"] == base["ok"]) and (not r["ok"] or repr(r["obs"]) == repr(base["obs"]))}
+    return out
+
+
+def read_file(path):
+    try:
+        with open(path) as f:
+            return f.read()
+    except OSError as e:
+        return None
+
+
+def judge_text(text, forms, what):
+    """the text form: accepted; a text without ': ' that the reader takes for a file name is the
+    open finding on read_yaml"""
+    f = forms["text"]
+    if f["ok"]:
+        return None
+    if ": " not in text and f["route"] == "OpenFile":
+        return (f"text-without-colon-space: the {what} written by write_yaml() has no ': ' "
+                f"({len(text)} characters) and the reader takes it for a file name: {f['err'][:120]}")
+    return f"rejected: the written {what} is not accepted back: {f['err']}"
+
+
+def judge_forms(case, text, ftext, forms, what):
+    """the file write_yaml(name) wrote is the document write_yaml() returned; every other entry form is
+    accepted and gives what the text form gave.  A stream refused by read_yaml's own assertion is
+    recorded aside (open finding on read_yaml), not judged here."""
+    if ftext is not None and ftext != text:
+        return f"file-differs: write_yaml(file name) wrote another document than write_yaml() returned ({what})"
+    for f in ("tree", "file", "stream"):
+        r = forms.get(f)
+        if r is None:
+            continue
+        if f == "stream" and not r["ok"] and r["route"] == "AssertFails":
+            if case is not None and all(c is not case for c in _STREAMS):
+                _STREAMS.append(case)
+            continue
+        if not r["ok"] and forms["text"]["ok"]:
+            return f"form-{f}: the written {what} is accepted as a text but not as a {f}: {r['err']}"
+        if not r["same"]:
+            return f"form-{f}: the written {what} read as a {f} differs from the same document read as a text"
+    return None
+
+
+def note_routes(entry):
+    if _LAYOUT["on"]:          # off during the re-evaluation of run()
+        _ROUTES.append(entry)
+
+
+def groutes(text, path, forms):
+    """[(form expression of the model, observed route)]"""
+    a = gabs(text_abs(text))
+    fe = {"text": f"(FText {a})", "file": f"(FName {gabs(text_abs(path))})", "stream": f"(FStream {a})", "tree": "FTree"}
+    return [(f, fe[f], r["route"]) for f, r in forms.items() if r["route"]]
 
 
 def reset_eps(eps=None):
@@ -119,6 +310,116 @@ def load_netlist(src):
     return n, v
 
 
+# --------------------------------------------------------------------------
+# a netlist document back through every entry form of Netlist(...), then reloaded and rewritten
+# --------------------------------------------------------------------------
+def netlist_back(doc, path=None, rewrite=True, tree=None):
+    """doc: the text (or, for the tools that hand a tree to the reader, the tree) of a produced netlist.
+    path: the file the producer itself wrote, when it can; otherwise the text is saved as the tools do.
+    Returns {"load": verdict of the reader on the document (+ "n": observation), "forms", "ftext", "path",
+    "rw": the reloaded netlist written again (w1), read again (n2) and written once more (w2)}"""
+    from frame.netlist.netlist import Netlist
+    rd = lambda src: nc.netlist_obs(Netlist(src))
+    back = {"forms": None, "ftext": None, "path": None, "rw": None}
+    if isinstance(doc, str):
+        if path is None:
+            path = new_path()
+            with open(path, "w") as f:
+                f.write(doc)
+        res = feed(rd, doc, path, tree=tree)
+        base = res["text"]
+        back.update(forms=forms_summary(res), ftext=read_file(path), path=path)
+    else:
+        reset_eps()
+        try:
+            base = {"ok": True, "obs": rd(copy.deepcopy(doc))}
+        except Exception as e:
+            base = {"ok": False, "err": f"{type(e).__name__}: {str(e)[:200]}"}
+    if base["ok"]:
+        back["load"] = {"verdict": "ok", "n": base["obs"]}
+    else:
+        back["load"] = {"verdict": "reject" if base["err"].startswith("AssertionError") else "exception",
+                        "msg": base["err"]}
+    if rewrite and base["ok"]:
+        rw = {"n2": None}
+        try:
+            reset_eps()
+            n1 = Netlist(doc if isinstance(doc, str) else copy.deepcopy(doc))
+            rw["w1"] = n1.write_yaml()
+            rw["tree"], _ = yload(rw["w1"])
+            reset_eps()
+            n2 = Netlist(rw["w1"])
+            rw["n2"] = nc.netlist_obs(n2)
+            rw["w2"] = n2.write_yaml()
+        except Exception as e:
+            rw["err"] = f"{type(e).__name__}: {str(e)[:200]}"
+        back["rw"] = rw
+    reset_eps()
+    return back
+
+
+def same_design_ordered(a, b):
+    """two loaded netlists say the same thing: modules in order with kinds, areas, centres, aspect ratios and the
+    rectangles IN THEIR ORDER (the first one is the trunk) with their regions; nets in order with weights"""
+    if [m["name"] for m in a["modules"]] != [m["name"] for m in b["modules"]]:
+        return f"modules {[m['name'] for m in a['modules']]} became {[m['name'] for m in b['modules']]}"
+    for m, r in zip(a["modules"], b["modules"]):
+        nm = m["name"]
+        if (m["terminal"], m["hard"], m["fixed"], m["flip"]) != (r["terminal"], r["hard"], r["fixed"], r["flip"]):
+            return f"module {nm}: kind (terminal, hard, fixed, flip) changes"
+        ra = [(val(x["x"]), val(x["y"]), val(x["w"]), val(x["h"]), x["region"]) for x in m["rects"]]
+        rb = [(val(x["x"]), val(x["y"]), val(x["w"]), val(x["h"]), x["region"]) for x in r["rects"]]
+        if ra != rb:
+            return (f"module {nm}: rectangles {[tuple(float(v) for v in x[:4]) + (x[4],) for x in ra]} became "
+                    f"{[tuple(float(v) for v in x[:4]) + (x[4],) for x in rb]}")
+        aa, ab = dict((k, val(v)) for k, v in m["area_regions"]), dict((k, val(v)) for k, v in r["area_regions"])
+        if set(aa) != set(ab) or any(not close(aa[k], ab[k]) for k in aa):
+            return f"module {nm}: areas {m['area_regions']} became {r['area_regions']}"
+        for fld in ("center", "ar"):
+            if (m[fld] is None) != (r[fld] is None) or (m[fld] is not None and not (
+                    close(m[fld][0], r[fld][0]) and close(m[fld][1], r[fld][1]))):
+                return f"module {nm}: {fld} {m[fld]} became {r[fld]}"
+    ea = [(e["members"], val(e["weight"])) for e in a["edges"]]
+    eb = [(e["members"], val(e["weight"])) for e in b["edges"]]
+    if ea != eb:
+        return "the nets or their weights change"
+    return None
+
+
+def judge_back(case, doc, back, what):
+    """every entry form says what the text said; the reloaded netlist is written, read and written again unchanged"""
+    if back.get("forms"):
+        why = judge_forms(case, doc, back["ftext"], back["forms"], what)
+        if why:
+            return why
+    rw = back.get("rw")
+    if rw and back["load"]["verdict"] == "ok":
+        if rw["n2"] is None:
+            return f"rewrite-rejected: the {what} is accepted, written again and then not accepted: {rw.get('err', '')}"
+        why = same_design_ordered(back["load"]["n"], rw["n2"])
+        if why:
+            return f"rewrite-changes: the {what} reloaded, written and read again is another design: {why}"
+    return None
+
+
+def coq_back(back, label, case, size_limit=400):
+    """model side of netlist_back: the text abstraction of the document is compared by the caller; here the routes
+    are filed and the model of the reader is run on the rewritten document"""
+    parts = []
+    rw = back.get("rw")
+    if rw and rw.get("n2") is not None and rw.get("tree") is not None and ascii_ok(rw["tree"]) \
+            and len(rw["n2"]["modules"]) <= size_limit and any(len(m["rects"]) >= 2 for m in rw["n2"]["modules"]):
+        # the trunk of a module with several rectangles is chosen again at every load (create_stog)
+        parts.append(f"loaded_ok None {gtree(rw['tree'])} {gnl({'verdict': 'ok', 'n': rw['n2']})}")
+        parts += layout(gtree(rw["tree"]), rw["w1"])
+    return parts
+
+
+def file_routes(case, label, doc, back):
+    if back.get("forms") and isinstance(doc, str):
+        note_routes((case, label, groutes(doc, back["path"], back["forms"]), text_abs(doc)))
+
+
 def gotree(t):
     return "None" if t is None else f"(Some {gtree(t)})"
 
@@ -133,7 +434,8 @@ def design_of(nobs):
     for m in nobs["modules"]:
         mods.append({"name": m["name"], "kind": (m["terminal"], m["hard"], m["fixed"]), "flip": m["flip"],
                      "areas": {k: val(v) for k, v in m["area_regions"]}, "ar": m["ar"], "center": m["center"],
-                     "rects": sorted((val(r["x"]), val(r["y"]), val(r["w"]), val(r["h"]), r["region"]) for r in m["rects"])})
+                     "rects": sorted((val(r["x"]), val(r["y"]), val(r["w"]), val(r["h"]), r["region"]) for r in m["rects"]),
+                     "rects_in_order": [(val(r["x"]), val(r["y"]), val(r["w"]), val(r["h"]), r["region"]) for r in m["rects"]]})
     nets = [(list(e["members"]), val(e["weight"])) for e in nobs["edges"]]
     return mods, nets
 
@@ -160,6 +462,24 @@ def gen_die(rng):
     return {"prod": "die", "W": xs[-1], "H": ys[-1], "regions": regions, "op": op}
 
 
+def gen_big_die(rng, n, k):
+    """a die with many regions on an n x n lattice; integral numbers written as ints; odd region names"""
+    q = rng.choice([F(1, 4), F(1, 2), F(1)])
+    xs = c01.lattice_lines(rng, n, q, 8 * n)
+    ys = c01.lattice_lines(rng, n, q, 8 * n)
+    rects = c01.place_regions(rng, n, n, k, "random")
+    names = ["#", "#", "BRAM", "DSP"] + ODD_NAMES
+    regions = [[(xs[i0] + xs[i1]) / 2, (ys[j0] + ys[j1]) / 2, xs[i1] - xs[i0], ys[j1] - ys[j0], rng.choice(names)]
+               for (i0, j0, i1, j1) in rects]
+    op = rng.choice([None, None, ["split", rng.choice([F(2), F(3)]), rng.choice([3, 8, 20])]])
+    return {"prod": "die", "W": xs[-1], "H": ys[-1], "regions": regions, "op": op, "ints": rng.random() < 0.5}
+
+
+def big_die_cases(rng, quick):
+    sizes = [(8, 20), (12, 40)] if quick else [(8, 20), (12, 40), (10, 30), (14, 60), (16, 90), (12, 0), (9, 25), (20, 120)]
+    return [gen_big_die(rng, n, k) for n, k in sizes]
+
+
 def die_obs(d):
     return {"W": d.width, "H": d.height, "blockages": [robs(r) for r in d.blockages],
             "spec": [robs(r) for r in d.specialized_regions], "ground": [robs(r) for r in d.ground_regions]}
@@ -168,11 +488,16 @@ def die_obs(d):
 def run_die(case):
     from frame.die.die import Die
     reset_eps()
-    tree = {"width": float(case["W"]), "height": float(case["H"])}
+    num = (lambda v: int(v) if (case.get("ints") and F(v).denominator == 1) else float(v))
+    tree = {"width": num(case["W"]), "height": num(case["H"])}
     if case["regions"]:
-        tree["regions"] = [[float(v) for v in r[:4]] + [r[4]] for r in case["regions"]]
+        tree["regions"] = [[num(v) for v in r[:4]] + [r[4]] for r in case["regions"]]
+    pre = None
     try:
         d = Die(tree)
+        if case["op"]:
+            # the die is written before it is refined in place, too
+            pre = {"before": die_obs(d), "t": d.write_yaml()}
         if case["op"] and case["op"][0] == "split":
             d.split_refinable_regions(float(case["op"][1]), case["op"][2])
         elif case["op"] and case["op"][0] == "grid":
@@ -182,18 +507,26 @@ def run_die(case):
     before = die_obs(d)
     t1 = d.write_yaml()
     mid = die_obs(d)
+    path = new_path()
+    d.write_yaml(path)
     t2 = d.write_yaml()
     after = die_obs(d)
     tree1, err = yload(t1)
     obs = {"built": True, "before": before, "t1": t1, "t2": t2, "unchanged": before == mid == after,
-           "tree1": tree1, "tree_err": err}
-    reset_eps()
-    try:
-        d2 = Die(t1)
-        obs["loaded"] = die_obs(d2)
-    except AssertionError as e:
-        obs["loaded"] = None
-        obs["msg"] = str(e)[:200]
+           "tree1": tree1, "tree_err": err, "ftext": read_file(path), "path": path}
+    res = feed(lambda src: die_obs(Die(src)), t1, path, tree=tree1)
+    obs["loaded"] = res["text"].get("obs")
+    obs["msg"] = res["text"].get("err", "")
+    obs["forms"] = forms_summary(res)
+    obs["t3"] = d.write_yaml()              # once more, after the readers have run
+    if pre is not None:
+        reset_eps()
+        try:
+            pre["loaded"] = die_obs(Die(pre["t"]))
+        except Exception as e:
+            pre["loaded"], pre["msg"] = None, f"{type(e).__name__}: {str(e)[:200]}"
+        reset_eps()
+        obs["pre"] = pre
     return obs
 
 
@@ -205,7 +538,17 @@ def gdie(o):
 def coq_die(case, obs):
     if not obs["built"] or obs["tree1"] is None:
         return "true"
-    return f"die_ok {gdie(obs['before'])} {gtree(obs['tree1'])} {gopt(None if obs['loaded'] is None else gdie(obs['loaded']))}"
+    note_routes((case, "die", groutes(obs["t1"], obs["path"], obs["forms"]), text_abs(obs["t1"])))
+    parts = [f"die_ok {gdie(obs['before'])} {gtree(obs['tree1'])} "
+             f"{gopt(None if obs['loaded'] is None else gdie(obs['loaded']))}"] + layout(gtree(obs["tree1"]), obs["t1"])
+    pre = obs.get("pre")
+    if pre:
+        ptree, _ = yload(pre["t"])
+        if ptree is not None:
+            parts.append(f"die_ok {gdie(pre['before'])} {gtree(ptree)} "
+                         f"{gopt(None if pre['loaded'] is None else gdie(pre['loaded']))}")
+            parts += layout(gtree(ptree), pre["t"])
+    return " && ".join(f"({x})" for x in parts)
 
 
 def cover_area(r, others):
@@ -216,9 +559,26 @@ def cover_area(r, others):
 def oracle_die(case, obs):
     if not obs["built"]:
         return None
-    if obs["loaded"] is None:
-        return f"rejected: the written die is not accepted back: {obs.get('msg', '')}"
-    a, b = obs["before"], obs["loaded"]
+    why = judge_text(obs["t1"], obs["forms"], "die")
+    if why:
+        return why
+    why = same_die(obs["before"], obs["loaded"])
+    if why:
+        return why
+    if obs.get("pre"):
+        if obs["pre"]["loaded"] is None:
+            return f"rejected: the die written before its refinement is not accepted back: {obs['pre'].get('msg')}"
+        why = same_die(obs["pre"]["before"], obs["pre"]["loaded"])
+        if why:
+            return why + " (written before the refinement)"
+    if obs["t1"] != obs["t2"] or obs["t1"] != obs["t3"]:
+        return "rewrite-differs: a later document differs from the first"
+    if not obs["unchanged"]:
+        return "mutated: writing changed the die"
+    return judge_forms(case, obs["t1"], obs["ftext"], obs["forms"], "die")
+
+
+def same_die(a, b):
     if val(a["W"]) != val(b["W"]) or val(a["H"]) != val(b["H"]):
         return f"size: die {a['W']} x {a['H']} reloaded as {b['W']} x {b['H']}"
     if [rkey(r) for r in a["blockages"]] != [rkey(r) for r in b["blockages"]]:
@@ -233,10 +593,6 @@ def oracle_die(case, obs):
     for r in a["ground"]:
         if abs(cover_area(r, b["ground"]) - val(r["w"]) * val(r["h"])) > tol:
             return f"ground: ground rectangle {rkey(r)} is not ground in the reloaded die"
-    if obs["t1"] != obs["t2"]:
-        return "rewrite-differs: the second document differs from the first"
-    if not obs["unchanged"]:
-        return "mutated: writing changed the die"
     return None
 
 
@@ -259,27 +615,108 @@ def gen_alloc_case(rng):
     return {"prod": "alloc", "cells": c["cells"], "ops": c["ops"], "eps": c["eps"], "aeps": c["aeps"]}
 
 
+def grid_alloc_case(rng, n, pattern, ops, lim, order="rows"):
+    """an n x n grid of cells (the shape of the initial allocation of a die after initial_grid(n, n)), sparsely
+    occupied: pattern = empty (no occupied cell) | last (only the last cell) | first | late (the first occupied cell
+    comes after at least 72 empty ones) | sparse | dense"""
+    s = rng.choice([F(1, 2), F(1), F(2), F(4)])
+    odd = rng.random() < 0.5
+    idx = list(range(n * n))
+    if pattern == "empty":
+        occ = set()
+    elif pattern == "last":
+        occ = {n * n - 1}
+    elif pattern == "first":
+        occ = {0}
+    elif pattern == "late":
+        lo = min(n * n - 1, rng.randrange(72, max(73, n * n)))
+        occ = {lo} | {i for i in idx[lo:] if rng.random() < 0.15}
+    elif pattern == "sparse":
+        occ = {i for i in idx if rng.random() < 0.04} or {rng.randrange(n * n)}
+    else:
+        occ = {i for i in idx if rng.random() < 0.7}
+    cells = []
+    for k in idx:
+        i, j = k % n, k // n
+        r = {"cx": (i + F(1, 2)) * s, "cy": (j + F(1, 2)) * s, "w": s, "h": s, "fixed": False, "hard": False,
+             "region": "_", "loc": "NOPOLY"}
+        al = []
+        if k in occ:
+            names = rng.sample(ODD_NAMES if odd else ac.MODS, rng.randrange(1, 3))
+            al = [[m, rng.choice([F(1, 8), F(1, 4), F(1, 2), F(3, 4), F(1), F(15, 16)])] for m in names]
+        if odd and rng.random() < 0.1:
+            r["region"] = rng.choice(ODD_NAMES)
+        cells.append({"rect": r, "alloc": al, "depth": 0})
+    # the order in which the cells are listed: rows bottom-up (initial_grid), top-down, columns, reversed, shuffled;
+    # the occupancy pattern refers to the grid index, so 'last' may be listed first
+    if order == "topdown":
+        cells = [cells[j * n + i] for j in reversed(range(n)) for i in range(n)]
+    elif order == "columns":
+        cells = [cells[j * n + i] for i in range(n) for j in range(n)]
+    elif order == "reversed":
+        cells = cells[::-1]
+    elif order == "shuffled":
+        rng.shuffle(cells)
+    return {"prod": "alloc", "cells": cells, "ops": ops, "eps": F(1, 2 ** 20), "aeps": F(1, 2 ** 10), "big": lim,
+            "grid": [n, pattern, order]}
+
+
+def big_alloc_cases(rng, quick):
+    """the size / sparsity extremes: the text of a large sparse allocation has its first ': ' far from the start"""
+    R = lambda t, l: ["refine", t, l]
+    cases = [grid_alloc_case(rng, 3, "empty", [R(F(1, 2), 1)], 400),
+             grid_alloc_case(rng, 9, "last", [R(F(1, 4), 1)], 400),
+             grid_alloc_case(rng, 14, "empty", [], 400),
+             grid_alloc_case(rng, 14, "late", [R(F(1, 4), 1), R(F(1, 2), 1)], 600),
+             grid_alloc_case(rng, 12, "first", [R(F(1, 2), 1)], 400, "reversed"),
+             grid_alloc_case(rng, 20, "last", [], 600)]
+    if quick:
+        return cases
+    cases += [grid_alloc_case(rng, 14, "last", [R(F(1, 2), 2)], 400),
+              grid_alloc_case(rng, 20, "late", [R(F(1, 2), 1)], 600),
+              grid_alloc_case(rng, 20, "last", [R(F(1, 2), 2), R(F(3, 4), 2)], 2500),
+              grid_alloc_case(rng, 20, "sparse", [R(F(1, 4), 2), R(F(1, 2), 1), ["uniform"]], 2500),
+              grid_alloc_case(rng, 20, "dense", [R(F(1), 1)], 2500),
+              grid_alloc_case(rng, 24, "late", [R(F(1, 2), 3)], 2500)]
+    for _ in range(14):
+        n = rng.choice([10, 12, 14, 16, 20])
+        ops = [R(rng.choice([F(1, 4), F(1, 2), F(3, 4), F(1)]), rng.choice([1, 1, 2, 3])) for _ in range(rng.randrange(0, 4))]
+        if rng.random() < 0.3:
+            ops.append([rng.choice(["uniform", "griddify"])])
+        cases.append(grid_alloc_case(rng, n, rng.choice(["empty", "last", "first", "late", "late", "sparse", "dense"]),
+                                     ops, 1500, rng.choice(["rows", "topdown", "columns", "reversed", "shuffled"])))
+    return cases
+
+
 def write_read_alloc(a, eps):
     from frame.allocation.allocation import Allocation
     before = ac.alloc_obs(a)
     t1 = a.write_yaml()
     mid = ac.alloc_obs(a)
+    path = new_path()
+    a.write_yaml(path)
     t2 = a.write_yaml()
     after = ac.alloc_obs(a)
     tree1, err = yload(t1)
-    st = {"before": before, "t1": t1, "t2": t2, "unchanged": before == mid == after, "tree1": tree1, "tree_err": err}
+    st = {"before": before, "t1": t1, "t2": t2, "unchanged": before == mid == after, "tree1": tree1, "tree_err": err,
+          "ftext": read_file(path), "path": path}
+    res = feed(lambda src: ac.alloc_obs(Allocation(src)), t1, path, eps, tree=tree1)
+    st["loaded"] = res["text"].get("obs")
+    st["msg"] = res["text"].get("err", "")
+    st["forms"] = forms_summary(res)
     reset_eps(eps)
-    try:
-        a2 = Allocation(t1 if ": " in t1 else to_py(tree1))
-        st["loaded"] = ac.alloc_obs(a2)
-    except (AssertionError, ZeroDivisionError) as e:
-        st["loaded"] = None
-        st["msg"] = f"{type(e).__name__}: {str(e)[:200]}"
+    st["t3"] = a.write_yaml()               # once more, after the readers have run
     return st
+
+
+# cells beyond which the model of the reader (quadratic: no_overlap) is not evaluated: writer's tree and text only
+MODEL_READ_CELLS = 450
 
 
 def run_alloc(case):
     eps = (case["eps"], case["aeps"])
+    big = case.get("big")
+    lim = (big or 120)
     reset_eps(eps)
     try:
         try:
@@ -288,16 +725,20 @@ def run_alloc(case):
             return {"built": False}
         stages = [write_read_alloc(a, eps)]
         for o in case["ops"]:
-            if len(a.allocations) > 60:
+            if len(a.allocations) > lim // 2:
                 break
             try:
                 if o[0] == "refine":
-                    if len(a.allocations) * 2 ** o[2] > 120:
+                    # at most every cell splits into 2 ** levels
+                    if not big and len(a.allocations) * 2 ** o[2] > lim:
                         break
-                    a = a.refine(float(o[1]), o[2])
+                    b = a.refine(float(o[1]), o[2])
+                    if len(b.allocations) > lim:
+                        break
+                    a = b
                 elif o[0] == "uniform":
                     md = max(x.depth for x in a.allocations)
-                    if sum(2 ** (md - x.depth) for x in a.allocations) > 120:
+                    if sum(2 ** (md - x.depth) for x in a.allocations) > lim:
                         break
                     a = a.uniform_refinement_depth()
                 else:
@@ -314,11 +755,17 @@ def coq_alloc(case, obs):
     if not obs["built"]:
         return "true"
     parts = []
-    for st in obs["stages"]:
+    for k, st in enumerate(obs["stages"]):
         if st["tree1"] is None:
+            continue
+        note_routes((case, f"allocation stage {k}", groutes(st["t1"], st["path"], st["forms"]), text_abs(st["t1"])))
+        if len(st["before"]["cells"]) > MODEL_READ_CELLS:
+            parts.append(f"(alloc_write_ok {ac.gcells(st['before']['cells'])} {gtree(st['tree1'])})")
+            parts += [f"({x})" for x in layout(gtree(st["tree1"]), st["t1"])]
             continue
         loaded = gopt(None if st["loaded"] is None else ac.gcells(st["loaded"]["cells"]))
         parts.append(f"(alloc_case_ok {gq(case['aeps'])} {ac.gcells(st['before']['cells'])} {gtree(st['tree1'])} {loaded})")
+        parts += [f"({x})" for x in layout(gtree(st["tree1"]), st["t1"])]
     return " && ".join(parts) or "true"
 
 
@@ -327,8 +774,9 @@ def oracle_alloc(case, obs):
         return None
     for k, st in enumerate(obs["stages"]):
         where = "initial allocation" if k == 0 else f"allocation after {case['ops'][k - 1][0]}"
-        if st["loaded"] is None:
-            return f"rejected: the written {where} is not accepted back: {st.get('msg', '')}"
+        why = judge_text(st["t1"], st["forms"], where)
+        if why:
+            return why
         a, b = st["before"], st["loaded"]
         if len(a["cells"]) != len(b["cells"]):
             return f"cells: {len(a['cells'])} cells reloaded as {len(b['cells'])} ({where})"
@@ -342,10 +790,13 @@ def oracle_alloc(case, obs):
         for m in a["areas"]:
             if m not in b["areas"] or not close(a["areas"][m], b["areas"][m]):
                 return f"ratios: area of {m} {a['areas'][m]} reloaded as {b['areas'].get(m)} ({where})"
-        if st["t1"] != st["t2"]:
-            return f"rewrite-differs: the second document differs from the first ({where})"
+        if st["t1"] != st["t2"] or st["t1"] != st["t3"]:
+            return f"rewrite-differs: a later document differs from the first ({where})"
         if not st["unchanged"]:
             return f"mutated: writing changed the allocation ({where})"
+        why = judge_forms(case, st["t1"], st["ftext"], st["forms"], where)
+        if why:
+            return why
     return None
 
 
@@ -373,6 +824,22 @@ def netgen_cases(quick, rng):
     return cases
 
 
+def large_netgen_cases(quick):
+    """sizes around the places where a text or a name changes shape (two, three, four digits; 255/256; some
+    thousands of characters) and large documents"""
+    if quick:
+        pick = {"chain": [101], "ring": [100], "star": [64], "ring-star": [100], "one-net": [256]}
+    else:
+        pick = {t: [64, 99, 100, 101, 255, 256, 257, 512, 1000, 1024] for t in TOPOS}
+    cases = [{"prod": "netgen", "topo": t, "size": [n]} for t in TOPOS for n in pick[t]]
+    grids = [[2, 101]] if quick else [[16, 16], [3, 101], [101, 3], [32, 32], [1, 300], [300, 1]]
+    cases += [{"prod": "netgen", "topo": "grid", "size": g} for g in grids]
+    cases += [{"prod": "netgen", "topo": "htree", "size": [lv]} for lv in ([] if quick else [5, 6])]
+    cases.append({"prod": "netgen", "topo": "grid", "size": [6, 11] if quick else [12, 12], "centers": [F(48), F(24)],
+                  "sd": 0, "seed": 1})
+    return cases
+
+
 def call_netgen(case):
     from tools.netgen import netgen
     from frame.geometry.geometry import Shape
@@ -387,6 +854,23 @@ def call_netgen(case):
     f = {"chain": netgen.gen_chain, "ring": netgen.gen_ring, "star": netgen.gen_star,
          "ring-star": netgen.gen_ring_star, "one-net": netgen.gen_one_net, "htree": netgen.gen_htree}[t]
     return f(s[0], 1)
+
+
+def netgen_main(case, path):
+    """the tool's own entry point: writes the netlist into a file"""
+    from tools.netgen import netgen
+    args = ["-o", path, "--type", case["topo"], "--size"] + [str(x) for x in case["size"]]
+    if case.get("centers"):
+        args += ["--add-centers", "--die", f"{float(case['centers'][0])}x{float(case['centers'][1])}",
+                 "--seed", str(case.get("seed", 0))]
+        if case.get("sd"):
+            args += ["--add-noise", str(float(case["sd"]))]
+    try:
+        with contextlib.redirect_stdout(io.StringIO()), contextlib.redirect_stderr(io.StringIO()):
+            netgen.main("netgen", args)
+        return None
+    except BaseException as e:
+        return f"{type(e).__name__}: {str(e)[:100]}"
 
 
 def run_netgen(case):
@@ -404,9 +888,14 @@ def run_netgen(case):
         yaml.dump(d, s)
         texts.append(s.getvalue())
     tree1, err = yload(texts[0])
-    n, v = load_netlist(texts[0])
+    path = new_path()
+    reset_eps()
+    main_err = netgen_main(case, path)
+    # reload-and-rewrite matters for modules with rectangles (netgen has none): small and large sizes only
+    nm = len(data.get("Modules", {}))
+    back = netlist_back(texts[0], path, rewrite=nm <= 6 or 64 <= nm <= 300, tree=tree1)
     return {"generated": True, "data": from_py(data), "t1": texts[0], "t2": texts[1], "tree1": tree1, "tree_err": err,
-            "load": v}
+            "load": back["load"], "back": back, "main_err": main_err}
 
 
 def gmodel_netgen(case):
@@ -425,13 +914,18 @@ def gmodel_netgen(case):
 
 
 def coq_netgen(case, obs):
-    if case.get("sd"):
-        return "true"          # random noise: direct oracle only
     if not obs["generated"]:
+        if case.get("sd"):
+            return "true"
         return f"match {gmodel_netgen(case)} with None => true | Some _ => false end"
     if obs["tree1"] is None:
         return "false"
-    return f"producer_ok 4 {gmodel_netgen(case)} {gotree(obs['tree1'])} {gnl(obs['load'])}"
+    file_routes(case, "netgen netlist", obs["t1"], obs["back"])
+    parts = layout(gtree(obs["tree1"]), obs["t1"])
+    if not case.get("sd"):          # random noise: direct oracle only
+        parts.append(f"producer_ok 4 {gmodel_netgen(case)} {gotree(obs['tree1'])} {gnl(obs['load'])}")
+        parts += coq_back(obs["back"], "netgen", case)
+    return " && ".join(f"({x})" for x in parts) or "true"
 
 
 def netgen_in_domain(case):
@@ -478,7 +972,9 @@ def oracle_netgen(case, obs):
             return f"topology: the loaded netlist is not the {what} it should be"
     if obs["t1"] != obs["t2"]:
         return f"rewrite-differs: generating {what} twice gives different documents"
-    return None
+    if obs["main_err"]:
+        return f"rejected: netgen's main does not write the {what} netlist: {obs['main_err']}"
+    return judge_back(case, obs["t1"], obs["back"], f"{what} netlist")
 
 
 def expected_topology(case):
@@ -703,22 +1199,23 @@ def run_floorset(case):
     before = fs_state(fp)
     t1 = fp.write_yaml_FPEF()
     mid = fs_state(fp)
+    path, dpath = new_path(), new_path()
+    fp.write_yaml_FPEF(path)
     t2 = fp.write_yaml_FPEF()
     after = fs_state(fp)
-    d1, d2 = fp.write_yaml_DIEF(), fp.write_yaml_DIEF()
+    d1 = fp.write_yaml_DIEF()
+    fp.write_yaml_DIEF(dpath)
+    d2 = fp.write_yaml_DIEF()
     tree1, err = yload(t1)
     dtree, _ = yload(d1)
-    n, v = load_netlist(t1)
+    back = netlist_back(t1, path, tree=tree1)
     obs = {"built": True, "before": before, "mid": mid, "after": after, "t1": t1, "t2": t2, "d1": d1, "d2": d2,
-           "tree1": tree1, "tree_err": err, "dtree": dtree, "load": v, "alpha": float(fp._alpha),
-           "shape": [float(fp.shape[0]), float(fp.shape[1])]}
-    reset_eps()
-    try:
-        d = Die(d1)
-        obs["die"] = [d.width, d.height, len(d.blockages) + len(d.specialized_regions)]
-    except AssertionError as e:
-        obs["die"] = None
-    reset_eps()
+           "tree1": tree1, "tree_err": err, "dtree": dtree, "load": back["load"], "back": back, "alpha": float(fp._alpha),
+           "shape": [float(fp.shape[0]), float(fp.shape[1])], "dpath": dpath, "dftext": read_file(dpath)}
+    res = feed(lambda src: (lambda d: [d.width, d.height, len(d.blockages) + len(d.specialized_regions)])(Die(src)),
+               d1, dpath, tree=dtree)
+    obs["die"] = res["text"].get("obs")
+    obs["dforms"] = forms_summary(res)
     return obs
 
 
@@ -741,11 +1238,15 @@ def coq_floorset(case, obs):
     p2b = glist([f"({gnat(int(a))}, {gnat(int(b))}, {gq(float(w) * al)})" for a, b, w in case["p2b"]])
     doc = (f"(fs_netlist_doc (fs_modules {gbool(case['tam'])} {glist(blocks)} {pins}) "
            f"(fs_nets 1 {b2b} {p2b}))")
+    file_routes(case, "FloorSet netlist", obs["t1"], obs["back"])
     parts = [f"producer_ok_noloc 8 (Some (fst {doc})) {gotree(obs['tree1'])} {gnl(obs['load'])}",
              f"list_eqb nedge_eqb (snd {doc}) {gnedges(obs['mid']['nets'])}",
              f"list_eqb nedge_eqb (fs_nets 1 {b2b} {p2b}) {gnedges(obs['before']['nets'])}"]
+    parts += layout(gtree(obs["tree1"]), obs["t1"])
     if obs["dtree"] is not None:
-        parts.append(f"ytree_sim 0 (fs_die_doc {pins}) {gtree(obs['dtree'])}")
+        note_routes((case, "FloorSet die", groutes(obs["d1"], obs["dpath"], obs["dforms"]), text_abs(obs["d1"])))
+        parts += layout(gtree(obs["dtree"]), obs["d1"])
+        parts.append(f"ytree_free 0 (fs_die_doc {pins}) {gtree(obs['dtree'])}")
         want = "None" if obs["die"] is None else \
             f"(Some (mkDie {gq(val(obs['die'][0]))} {gq(val(obs['die'][1]))} [] []))"
         parts.append(f"opt_eqb die_eqb (read_die {gtree(obs['dtree'])}) {want}")
@@ -821,7 +1322,10 @@ def oracle_floorset(case, obs):
             return "rejected: the FloorSet die is not accepted by the die reader"
         if val(obs["die"][0]) != sx or val(obs["die"][1]) != sy or obs["die"][2] != 0:
             return f"size: die {sx} x {sy} loaded as {obs['die']}"
-    return None
+        why = judge_forms(case, obs["d1"], obs["dftext"], obs["dforms"], "FloorSet die")
+        if why:
+            return why
+    return judge_back(case, obs["t1"], obs["back"], "FloorSet netlist")
 
 
 # --------------------------------------------------------------------------
@@ -857,6 +1361,10 @@ def compare_designs(src, dst, replaced=None, positions_only=False):
             return f"shapes: module {nm} rectangles {want} reloaded as {r['rects']}"
         if want != r["rects"]:
             known.append(f"rect-region: module {nm} rectangles {want} reloaded as {r['rects']}")
+        elif nm not in replaced and m["rects_in_order"] != r["rects_in_order"]:
+            # the order is part of the shape: the first rectangle is the trunk, the others its branches
+            return (f"rect-order: module {nm} rectangles {[tuple(float(v) for v in x[:4]) for x in m['rects_in_order']]} "
+                    f"reloaded in another order {[tuple(float(v) for v in x[:4]) for x in r['rects_in_order']]}")
         if not close(sum(m["areas"].values()), sum(r["areas"].values())):
             return f"areas: module {nm} area {m['areas']} reloaded as {r['areas']}"
         if set(m["areas"]) != set(r["areas"]) or any(not close(m["areas"][k], r["areas"][k]) for k in m["areas"]):
@@ -879,7 +1387,7 @@ def special_names(nobs):
     return [m["name"] for m in nobs["modules"] if m["name"] in YAML_WORDS]
 
 
-def judge_builder(obs, src, replaced=None):
+def judge_builder(obs, src, replaced=None, case=None):
     """oracle shared by solnet / legal: obs has s1, s2, load (verdict of the reader on s1), unchanged"""
     if obs["load"]["verdict"] != "ok":
         if special_names(src):
@@ -894,7 +1402,37 @@ def judge_builder(obs, src, replaced=None):
         return "rewrite-differs: the second document differs from the first"
     if not obs["unchanged"]:
         return "mutated: producing the document changed the netlist"
+    if obs.get("back"):
+        return judge_back(case, obs.get("doc1", obs["s1"]), obs["back"], "netlist")
     return None
+
+
+def twin_boxes(rng, k):
+    """two congruent rectangles that share a whole side: equal areas, either can be the trunk (a tie in create_stog)"""
+    w, h = F(rng.randrange(1, 17), rng.choice([1, 2, 4])), F(rng.randrange(1, 17), rng.choice([1, 2, 4]))
+    x0, y0 = F(500 + 40 * k), F(rng.randrange(2, 60))
+    a = [x0 + w / 2, y0 + h / 2, w, h]
+    b = [x0 + w + w / 2, y0 + h / 2, w, h] if rng.random() < 0.5 else [x0 + w / 2, y0 + h + h / 2, w, h]
+    return [b, a] if rng.random() < 0.5 else [a, b]
+
+
+def twin_module(rng, k):
+    a, b = twin_boxes(rng, k)
+    area = 2 * a[2] * a[3]
+    kind = rng.choice(["hard", "hard", "flip", "fixed", "soft", "soft-regions"])
+    if kind in ("soft", "soft-regions") and rng.random() < 0.5:
+        a = a + [rng.choice(["dsp", "lut"])]         # the two halves in different regions: swapping them shows
+    if kind == "soft-regions" and len(a) == 5:
+        m = {"area": {"_": area / 2, a[4]: area / 2}, "rectangles": [a, b]}
+    elif kind in ("soft", "soft-regions"):
+        m = {"area": rng.choice([area, area + F(3, 2)]), "rectangles": [a, b]}
+    elif kind == "fixed":
+        m = {"fixed": True, "rectangles": [a, b]}
+    else:
+        m = {"hard": True, "rectangles": [a, b]}
+        if kind == "flip":
+            m["flip"] = True
+    return m
 
 
 def gen_design(rng, need_rects=False):
@@ -903,6 +1441,13 @@ def gen_design(rng, need_rects=False):
         doc = nc.gen_doc(rng, quirks=False)
         if not isinstance(doc.get("Modules"), dict) or not nc.exact_doc(doc):
             continue
+        if rng.random() < 0.3:
+            for k in range(rng.choice([1, 1, 2])):
+                name = f"TW{k}"
+                if name not in doc["Modules"]:
+                    doc["Modules"][name] = twin_module(rng, k)
+                    if doc.get("Nets") and rng.random() < 0.5:
+                        doc["Nets"][0] = [name] + list(doc["Nets"][0])
         if need_rects:
             if rng.random() < 0.7:       # no terminal, every module with rectangles: a model can be built
                 for k, info in list(doc["Modules"].items()):
@@ -932,6 +1477,8 @@ def gen_solnet(rng):
             for j in range(rng.randrange(1, 4)):
                 bs.append([F(rng.randrange(8, 400), 4) + 40 * j, F(rng.randrange(8, 400), 4),
                            F(rng.randrange(1, 24), 4), F(rng.randrange(1, 24), 4)])
+            if rng.random() < 0.2:
+                bs = twin_boxes(rng, 3)
             result[k] = bs
     return {"prod": "solnet", "doc": doc, "result": result}
 
@@ -952,12 +1499,12 @@ def run_solnet(case):
         raise
     after = nc.netlist_obs(n)
     tree1, err = yload(s1)
-    _, v2 = load_netlist(s1)
+    back = netlist_back(s1, tree=tree1)
     return {"given": True, "src": src, "raised": False, "s1": s1, "s2": s2, "unchanged": after == src,
-            "tree1": tree1, "tree_err": err, "load": v2}
+            "tree1": tree1, "tree_err": err, "load": back["load"], "back": back}
 
 
-def coq_builder(case, obs, model):
+def coq_builder(case, obs, model, extra=False):
     """model: Gallina expression of type option ytree over the loaded netlist n"""
     if not obs["given"] or not ascii_ok(case["doc"]):
         return "true"
@@ -967,8 +1514,13 @@ def coq_builder(case, obs, model):
         return "true"       # an unquoted null / true / false: the tree is not a document; the oracle reports it
     if obs["tree1"] is None or not ascii_ok(obs["tree1"]):
         return "false"
-    return (f"with_netlist {gtree(case['doc'])} (fun n => producer_ok 4 ({model}) {gotree(obs['tree1'])} "
-            f"{gnl(obs['load'])})")
+    parts = [f"with_netlist {gtree(case['doc'])} (fun n => producer_ok 4 ({model}) {gotree(obs['tree1'])} "
+             f"{gnl(obs['load'])})"]
+    if extra:
+        if isinstance(obs.get("s1"), str) and obs["s1"] and obs["s1"][0] != "{":      # a text, not the repr of a tree
+            parts += layout(gtree(obs["tree1"]), obs["s1"])
+        parts += coq_back(obs.get("back") or {}, "builder", case)
+    return " && ".join(f"({x})" for x in parts)
 
 
 def gresult(case):
@@ -976,7 +1528,9 @@ def gresult(case):
 
 
 def coq_solnet(case, obs):
-    return coq_builder(case, obs, f"Some (solution_to_netlist n {gresult(case)})")
+    if obs.get("given") and not obs.get("raised") and obs.get("back"):
+        file_routes(case, "solution netlist", obs["s1"], obs["back"])
+    return coq_builder(case, obs, f"Some (solution_to_netlist n {gresult(case)})", extra=True)
 
 
 def coq_solnet_found(case, obs):
@@ -986,7 +1540,7 @@ def coq_solnet_found(case, obs):
 def oracle_solnet(case, obs):
     if not obs["given"] or obs.get("raised"):
         return None
-    return judge_builder(obs, obs["src"], case["result"])
+    return judge_builder(obs, obs["src"], case["result"], case)
 
 
 # --------------------------------------------------------------------------
@@ -1029,20 +1583,32 @@ def run_allocnet(case):
         aobs = ac.alloc_obs(a)
         tree = [[[c["rect"][k] for k in ("cx", "cy", "w", "h")] + [c["rect"]["region"]],
                  {m: q for m, q in c["alloc"]}] for c in aobs["cells"]]
-        texts = []
+        # the allocation reaches the tool as a tree, as the text Allocation.write_yaml() returns and as the
+        # file Allocation.write_yaml(name) writes (the tool's command line)
+        atext = a.write_yaml()
+        apath = new_path()
+        a.write_yaml(apath)
+        calls = []
         with Spy(rio) as spy:
-            for _ in range(2):
+            for form, src in (("tree", to_py(tree)), ("tree", to_py(tree)), ("text", atext), ("file", apath)):
+                k = len(spy.texts)
+                reset_eps(eps)
+                err = None
                 try:
-                    rio.get_netlist(None, to_py(tree))
-                except AssertionError:
-                    pass
-            texts = list(spy.texts)
-        if len(texts) != 2:
-            return {"built": True, "alloc": aobs, "texts": texts, "tree1": None, "load": {"verdict": "none"}}
-        tree1, err = doc_tree(texts[0])
-        _, v = load_netlist(texts[0])
-        return {"built": True, "alloc": aobs, "texts": [doc_text(t) for t in texts], "tree1": tree1, "tree_err": err,
-                "load": v}
+                    rio.get_netlist(None, src)
+                except Exception as e:
+                    err = f"{type(e).__name__}: {str(e)[:160]}"
+                doc = spy.texts[k] if len(spy.texts) > k else None
+                calls.append({"form": form, "err": err, "doc": None if doc is None else doc_text(doc)})
+        obs = {"built": True, "alloc": aobs, "calls": calls, "atext": atext, "tree1": None, "load": {"verdict": "none"}}
+        if calls[0]["doc"] is None:
+            return obs
+        doc = spy.texts[0]
+        obs["tree1"], obs["tree_err"] = doc_tree(doc)
+        obs["doc1"] = doc if isinstance(doc, str) else None
+        back = netlist_back(doc, tree=obs["tree1"] if isinstance(doc, str) else None)
+        obs["back"], obs["load"] = back, back["load"]
+        return obs
     finally:
         reset_eps()
 
@@ -1053,14 +1619,25 @@ def coq_allocnet(case, obs):
     if obs["tree1"] is None:
         return "false"
     cells = [dict(c, rect=dict(c["rect"], fixed=False, hard=False)) for c in obs["alloc"]["cells"]]
-    return f"producer_ok 64 (Some (alloc_netlist_doc {ac.gcells(cells)})) {gotree(obs['tree1'])} {gnl(obs['load'])}"
+    if obs.get("doc1"):
+        file_routes(case, "netlist of an allocation", obs["doc1"], obs["back"])
+    parts = [f"producer_ok 64 (Some (alloc_netlist_doc {ac.gcells(cells)})) {gotree(obs['tree1'])} {gnl(obs['load'])}"]
+    parts += coq_back(obs["back"], "allocnet", case)
+    return " && ".join(f"({x})" for x in parts)
 
 
 def oracle_allocnet(case, obs):
     if not obs["built"]:
         return None
-    if len(obs["texts"]) != 2:
-        return "rejected: get_netlist did not reach the netlist reader"
+    calls = obs["calls"]
+    if calls[0]["doc"] is None:
+        return f"rejected: get_netlist did not reach the netlist reader: {calls[0]['err']}"
+    for c in calls[1:]:
+        if c["doc"] is None:
+            if c["form"] == "text" and ": " not in obs["atext"] and c["err"].split(":")[0] in ("FileNotFoundError", "OSError"):
+                return (f"text-without-colon-space: the text Allocation.write_yaml() returned has no ': ' and "
+                        f"get_netlist takes it for a file name: {c['err'][:100]}")
+            return f"rejected: get_netlist does not take the allocation as a {c['form']}: {c['err']}"
     if obs["load"]["verdict"] != "ok":
         return f"rejected: the netlist built from the allocation is not accepted: {obs['load'].get('msg', '')[:200]}"
     mods, nets = design_of(obs["load"]["n"])
@@ -1075,9 +1652,12 @@ def oracle_allocnet(case, obs):
             return f"centers: module {m['name']} centre {c} loaded as {m['center']}"
     if nets:
         return "nets: an allocation has no nets"
-    if obs["texts"][0] != obs["texts"][1]:
+    if calls[0]["doc"] != calls[1]["doc"]:
         return "rewrite-differs: the second document differs from the first"
-    return None
+    for c in calls[2:]:
+        if c["doc"] != calls[0]["doc"]:
+            return f"form-{c['form']}: the netlist built from the allocation given as a {c['form']} differs from the one built from the tree"
+    return judge_back(case, obs.get("doc1") or "", obs["back"], "netlist of the allocation")
 
 
 # --------------------------------------------------------------------------
@@ -1118,16 +1698,19 @@ def run_legal(case):
             return {"given": True, "src": src, "built": True, "s1": None, "s2": None, "tree1": None, "load": v2,
                     "unchanged": after == src}
         tree1, err = doc_tree(texts[0])
-        _, v2 = load_netlist(texts[0])
+        back = netlist_back(texts[0])
         return {"given": True, "src": src, "built": True, "s1": doc_text(texts[0]), "s2": doc_text(texts[1]),
-                "unchanged": after == src, "tree1": tree1, "tree_err": err, "load": v2}
+                "unchanged": after == src, "tree1": tree1, "tree_err": err, "load": back["load"], "back": back,
+                "doc1": texts[0] if isinstance(texts[0], str) else ""}
     finally:
         tempfile.tempdir = old
         reset_eps()
 
 
 def coq_legal(case, obs):
-    return coq_builder(case, obs, "legal_netlist n")
+    if obs.get("given") and obs.get("built") and obs.get("back") and obs.get("doc1"):
+        file_routes(case, "legalised netlist", obs["doc1"], obs["back"])
+    return coq_builder(case, obs, "legal_netlist n", extra=True)
 
 
 def coq_legal_found(case, obs):
@@ -1139,7 +1722,7 @@ def oracle_legal(case, obs):
         return None
     if obs["s1"] is None:
         return "rejected: get_netlist did not reach the netlist reader"
-    return judge_builder(obs, obs["src"])
+    return judge_builder(obs, obs["src"], None, case)
 
 
 # --------------------------------------------------------------------------
@@ -1158,8 +1741,15 @@ ORACLE = {"die": oracle_die, "alloc": oracle_alloc, "netgen": oracle_netgen, "na
 FOUND = {"solnet": coq_solnet_found, "legal": coq_legal_found}
 
 
+_CLOCK = {"impl": 0.0}
+
+
 def run_impl(case):
-    return RUN[case["prod"]](case)
+    t0 = time.time()
+    try:
+        return RUN[case["prod"]](case)
+    finally:
+        _CLOCK["impl"] += time.time() - t0
 
 
 _SEEN = {}
@@ -1183,6 +1773,8 @@ def failure_key(case, why):
         head = "raises-" + why.split()[2].rstrip(":")
     elif " " in head or not head:
         head = "disagree"
+    if head in ("stream-rejected", "text-without-colon-space"):      # the reader's entry point, whatever the producer
+        return f"C19/read_yaml/{head}"
     if prod in ("rect_io.solution_to_netlist", "legalfloor.get_netlist") and head in DROPS:
         head = "drops-attributes"
     return f"C19/{prod}/{head}"
@@ -1257,36 +1849,168 @@ def dist_key(case):
         return "die/" + (case["op"][0] if case["op"] else "plain")
     if p == "floorset":
         return "floorset/" + ("terminals-as-modules" if case["tam"] else "terminals")
+    if p == "alloc" and case.get("grid"):
+        return "alloc/grid-" + case["grid"][1]
     return p
+
+
+def extreme_cases(rng, quick):
+    return big_alloc_cases(rng, quick) + large_netgen_cases(quick) + big_die_cases(rng, quick)
+
+
+def shrink_in_class(case, key, budget=250):
+    """greedy shrinking that stays in the failure class (a large sparse allocation refused under a seeded change
+    must not shrink into the all-empty allocation of the open finding)"""
+    def fails(c):
+        try:
+            obs = run_impl(c)
+        except Exception as e:
+            return f"implementation raised {type(e).__name__}: {e}", {"crash": str(e)}
+        try:
+            return oracle(c, obs), obs
+        except Exception:
+            return None, obs
+    best = None
+    improved = True
+    while improved and budget > 0:
+        improved = False
+        for cand in shrink(case):
+            budget -= 1
+            if budget <= 0:
+                break
+            w, o = fails(cand)
+            if w and failure_key(cand, w) == key:
+                case, best, improved = cand, (w, o), True
+                break
+    return (case,) + best if best else None
+
+
+def layout_recheck(ctx, out, bad):
+    """The layout of a text (where the line breaks and the ': ' are) is not part of the property; the model
+    assumes ruamel's block style (contract looks_dump of the entry-form theorems).  A case on which model and
+    implementation disagree ONLY about that is taken out of the disagreements and reported as a note."""
+    if not bad or not _LAYOUT["on"]:
+        return
+    _LAYOUT["on"] = False
+    try:
+        exprs = [COQ[c["prod"]](c, o) for c, o, _, _, _ in bad]
+    finally:
+        _LAYOUT["on"] = True
+    res = core.coq_eval_bools(ctx, HEADER, exprs, shard=50, tag="nolayout")
+    only_layout = {json.dumps(fr.tojson(c), sort_keys=True) for (c, _, _, _, _), r in zip(bad, res) if r is True}
+    listed = {json.dumps(d["case"], sort_keys=True) for d in out.disagreements}
+    out.disagreements = [d for d in out.disagreements if json.dumps(d["case"], sort_keys=True) not in only_layout]
+    for (c, o, why, e, r), r2 in zip(bad, res):
+        k = json.dumps(fr.tojson(c), sort_keys=True)
+        if r2 is not True and k not in listed and len(out.disagreements) < 50:
+            out.disagreements.append({"key": failure_key(c, why or "disagree"), "case": fr.tojson(c), "impl": fr.tojson(o),
+                                      "explained": bool(why), "oracle": why, "coq_check": e[:3000],
+                                      "model_result": "false" if r is False else "coqc failed"})
+    if only_layout:
+        out.extra["text_layout_differs"] = len(only_layout)
+        ctx.notes.append(f"C19: on {len(only_layout)} cases the written text is not laid out as the block style the model "
+                         "of write_yaml assumes (line breaks / ': '); the entry-form theorems then speak about these "
+                         "documents through the direct oracle only (accepted on every entry form)")
+
+
+def second_pass(ctx, out):
+    """the routes read_yaml took for every entry form of every document, against the model; the streams refused
+    by read_yaml's assertion as failures of their own (not through the per-case oracle: they would 'explain'
+    every other disagreement of the case)"""
+    flat = []
+    for case, label, routes, tabs in _ROUTES:
+        for form, fe, observed in routes:
+            flat.append((case, label, form, tabs, f"route_ok {fe} {observed}", f"route_found_ok {fe} {observed}"))
+    res = core.coq_eval_bools(ctx, HEADER, [x[4] for x in flat], shard=1500, tag="routes")
+    bad = [x for x, r in zip(flat, res) if r is not True]
+    found = core.coq_eval_bools(ctx, HEADER, [x[5] for x in bad], shard=1500, tag="routesfound") if bad else []
+    out.extra["entry_forms_compared"] = len(flat)
+    out.extra["entry_form_disagreements"] = len(bad)
+    count = {}
+    for (case, label, form, tabs, e, _), as_found in zip(bad, found):
+        key, explained = "C19/read_yaml/disagree", False
+        if as_found is True and form == "stream":
+            key, explained = "C19/read_yaml/stream-rejected", True
+        elif as_found is True and form == "text" and not tabs[0]:
+            key, explained = "C19/read_yaml/text-without-colon-space", True
+        count[key] = count.get(key, 0) + 1
+        if count[key] <= 3:
+            out.disagreements.append({"key": key, "case": fr.tojson(case), "explained": explained,
+                                      "why": f"read_yaml on the {form} form of the {label}: the model's route differs",
+                                      "coq_check": e, "model_result": "false",
+                                      "as_found": "the route is the one the model of read_yaml as found predicts"
+                                      if as_found is True else None})
+    out.extra["streams_refused"] = len(_STREAMS)
+    for case in sorted(_STREAMS, key=lambda c: len(json.dumps(fr.tojson(c))))[:2]:
+        out.failures.append({"key": "C19/read_yaml/stream-rejected", "case": fr.tojson(case),
+                             "why": "stream-rejected: read_yaml refuses the open stream (open(file name)) on the file "
+                                    "write_yaml(file name) wrote, by its own assertion, before reading it "
+                                    f"({len(_STREAMS)} cases of this run; every stream is refused)"})
 
 
 def run(ctx, out, replay=None):
     quick = ctx.quick()
     _TMP["dir"] = str(ctx.work / "gekko")
     os.makedirs(_TMP["dir"], exist_ok=True)
-    out.rule = ("per producer: dies (lattice regions, plain / split_refinable_regions / initial_grid), allocations "
-                "(guillotine/grid/sparse cells, then refine/uniform/griddify chains; every stage written and reloaded), "
-                "netgen: every topology for sizes 0..40, grids 0..8 x 0..8, h-trees 0..4 exhaustively (+ grids with centres), "
+    _DOCS["dir"], _DOCS["n"] = str(ctx.work / "docs"), 0
+    os.makedirs(_DOCS["dir"], exist_ok=True)
+    del _ROUTES[:], _STREAMS[:]
+    out.rule = ("per producer: dies (lattice regions, plain / split_refinable_regions / initial_grid; large lattices with "
+                "many regions), allocations (guillotine/grid/sparse cells, then refine/uniform/griddify chains; every stage "
+                "written and reloaded; n x n grids up to 24 x 24 with no / one last / late / sparse / dense occupied cells, "
+                "refined several levels), "
+                "netgen: every topology for sizes 0..40, grids 0..8 x 0..8, h-trees 0..4 exhaustively (+ grids with centres, "
+                "+ large sizes), "
                 "named edges, synthetic FloorSet instances (single-trunk orthogonal polygons, pins on/off the border, both "
                 "terminal modes, with/without density), solution_to_netlist on accepted random netlists with synthetic box "
-                "results, get_netlist on allocations, legalfloor models built (not solved) from accepted netlists; "
-                "each producer is called twice; non-trivial = at least two regions/cells/modules/pins, netgen inside its domain")
+                "results, get_netlist on allocations, legalfloor models built (not solved) from accepted netlists "
+                "(with modules of two congruent abutting rectangles); each producer is called twice; every document goes "
+                "back through the text, the file (by name and as an open stream) and the tree; netlists are reloaded and "
+                "rewritten; non-trivial = at least two regions/cells/modules/pins, netgen inside its domain")
     rng = ctx.rng
+    rng2 = random.Random(f"C19-forms-{ctx.seed}")
     cases = []
     if replay and "case" in replay:
         cases.append(fr.unjson(replay["case"]))
     cases += fr.load_corpus("C19")
     cases += netgen_cases(quick, rng)
     budget = {"die": 90, "alloc": 60, "named": 30, "floorset": 70, "allocnet": 40, "solnet": 90, "legal": 70} if quick else \
-             {"die": 900, "alloc": 500, "named": 200, "floorset": 800, "allocnet": 400, "solnet": 1200, "legal": 900}
+             {"die": 600, "alloc": 350, "named": 200, "floorset": 500, "allocnet": 300, "solnet": 800, "legal": 600}
     gens = {"die": gen_die, "alloc": gen_alloc_case, "named": gen_named, "floorset": gen_floorset,
             "solnet": gen_solnet, "allocnet": gen_allocnet, "legal": gen_legal}
     for p, k in budget.items():
         for _ in range(k):
             cases.append(gens[p](rng))
+    # the large cases are spread over the list: the model is evaluated in shards of consecutive cases, in parallel
+    head = len(cases) - sum(budget.values()) - len(netgen_cases(quick, random.Random(0)))
+    ext = extreme_cases(rng2, quick)
+    body = cases[head:]
+    step = max(1, len(body) // (len(ext) + 1))
+    for k, c in enumerate(ext):
+        body.insert(min(len(body), (k + 1) * step + k), c)
+    cases = cases[:head] + body
+    if os.environ.get("C19_ONLY"):      # development aid: a subset of the producers
+        cases = [c for c in cases if c["prod"] in os.environ["C19_ONLY"].split(",")]
+    _CLOCK["impl"] = 0.0
+    t_start = time.time()
     try:
-        fr.run_cases(ctx, out, cases, run_impl, to_coq, oracle, failure_key, HEADER, dist_key=dist_key,
-                     nontrivial=nontrivial, shard=60, shrink=shrink)
+        bad = fr.run_cases(ctx, out, cases, run_impl, to_coq, oracle, failure_key, HEADER, dist_key=dist_key,
+                           nontrivial=nontrivial, shard=50, shrink=None)
+        layout_recheck(ctx, out, bad)
+        out.extra["seconds_implementation"] = round(_CLOCK["impl"], 1)
+        out.extra["seconds_model_evaluation"] = round(time.time() - t_start - _CLOCK["impl"], 1)
+        second_pass(ctx, out)
+        # a minimal input per failure class, staying in the class
+        seen, shrunk = set(), []
+        for f in out.failures:
+            if f["key"] in seen:
+                continue
+            seen.add(f["key"])
+            r = shrink_in_class(fr.unjson(f["case"]), f["key"])
+            if r:
+                shrunk.append({"key": f["key"], "why": r[1], "case": fr.tojson(r[0]), "impl": fr.tojson(r[2]),
+                               "shrunk_from": f["case"]})
+        out.failures = shrunk + out.failures
     finally:
         reset_eps()
     for f in out.failures:      # a shrunk input is filed under the failure it shows
